@@ -106,7 +106,7 @@ def check(ctx, replay=None):
         cov["evaluations"] += s["probes"]
         cov["distinct_nontrivial"] += s["distinct_nontrivial"]
         cov["traces_validated_against_impl"] += s["children"]
-        cov.setdefault("kernel_replays", []).append({k: s[k] for k in ("scope", "cases", "children", "probes", "fatal_probes", "skipped_children", "inconclusive_children")})
+        cov.setdefault("kernel_replays", []).append({k: s[k] for k in ("scope", "cases", "children", "probes", "fatal_probes", "skipped_children", "inconclusive_children", "failed_loads_not_judged")})
         if s["skipped_children"] > s["children"] // 4:
             raise vlib.Machinery("%d of %d children could not be run" % (s["skipped_children"], s["children"]))
         for x in s["samples"] or []:
@@ -115,7 +115,7 @@ def check(ctx, replay=None):
             f["how"] = "./check C08 --replay <this file>"
             ctx.violation("%s: %s" % (f["kind"], f["why"]), f)
         if p["scope"] in ("many", "klong", "rich"):
-            strace_capture(ctx, out, p["scope"], 6 if th else 2)
+            strace_capture(ctx, out, p["scope"], 8 if th else 4)
     cov["rule"] = ("policies of the CompileScopes scopes (many, rich, allops, groups2, single, boundary, klong = programs of 250..700 instructions) concretised over "
                    "the 14 harmless probe syscalls of x86_64 with seeded argument positions and word embeddings; one fresh child per policy through the real "
                    "LoadFilter with flags in {0,tsync,log,tsync|log} and NoNewPrivs on/off; raw probes with 64-bit registers, expected errno/ENOSYS/SIGSYS "
